@@ -2346,6 +2346,16 @@ impl SctpInner {
                 received_queue.retain(|&tsn, _| tsn_gt(tsn, new_cumulative_tsn));
             }
 
+            // Fragments are TSN-contiguous and processed in TSN order, so a
+            // message that was mid-reassembly continues inside the skipped range:
+            // drop the partial data instead of gluing later fragments onto it.
+            for weak_dc in self.data_channels.lock().iter() {
+                if let Some(dc) = weak_dc.upgrade() {
+                    dc.reassembly_buffer.lock().clear();
+                    dc.reassembling.store(false, Ordering::Relaxed);
+                }
+            }
+
             // Advance SSNs for ordered streams
             if !stream_ssn_pairs.is_empty() {
                 let mut streams = self.inbound_streams.lock();
@@ -2837,9 +2847,15 @@ impl SctpInner {
                     );
                 }
                 buffer.clear();
+                dc.reassembling.store(true, Ordering::Relaxed);
+            } else if !dc.reassembling.load(Ordering::Relaxed) {
+                // Middle/last fragment of a message whose beginning was skipped
+                // by a FORWARD-TSN (abandoned): never deliver a truncated message.
+                return Ok(());
             }
             buffer.extend_from_slice(&user_data);
             if e_bit {
+                dc.reassembling.store(false, Ordering::Relaxed);
                 let msg = std::mem::take(&mut *buffer).freeze();
                 drop(buffer);
 
